@@ -74,3 +74,12 @@ add("C20", "exploration",
     "Time bounds are one-sided and generous (>=0.5 s slack); phases other than 'at backend' are only checked for exit timing and the "
     "list-call rule. A bound hit only once is reported as inconclusive.",
     "property-based testing (rapid): generated health-check histories against a counter model; generated signal/phase/grace scenarios with one-sided time bounds", "3/C20")
+add("C07", "fault_enumeration",
+    "34 fault kinds over all injection points (pending list, request fetch, backend connect/headers/body, response upload, shim "
+    "endpoints, unreachable backend) are (a) enumerated exhaustively at three positions of a stream of healthy requests and (b) inserted "
+    "at generated positions/multiplicities into generated streams of 10-60 healthy concurrent requests, against the real agent binary "
+    "(-race, shim and session tracking on) behind a fake proxy and a faulty raw backend. Invariant: agent alive, no race/fatal/panic "
+    "output, every healthy request (before, during, after) uploaded with its own content, 502 when the backend is unreachable.",
+    "What the faulty request's own client sees is not asserted (beyond the 502 case). Fault kinds are a finite hand-written table; "
+    "timing of faults relative to healthy requests is sampled.",
+    "fault injection driven by rapid-generated request/fault streams + exhaustive kind x position grid; history invariant oracle", "3/C07")
